@@ -13,7 +13,8 @@ RULE = ('one case = one tape history: 1..4 files (data via PRINT#/WRITE#, ASCII 
         'SAVE, memory images via BSAVE) with random names and content lengths around every multiple of the 255-byte '
         'record payload and of the 256-byte block (quick: boundary set; thorough: every length 0..3*255+2 for each '
         'file kind), written in one or two Sessions (the second appends after playing to the end), the image is '
-        'reopened in fresh Sessions and read with INPUT$ / LINE INPUT# / LOAD / BLOAD in several orders; '
+        'reopened in fresh Sessions and read with INPUT$ / LINE INPUT# / LOAD / BLOAD in several orders, including '
+        'searches that fail (name not on the tape, file behind the head) followed by further reads; '
         'non-trivial = at least one file has a non-empty content')
 EXPLANATION = ('theorems (PcbV.Props.C29): text and binary record framing round trip for every content, search finds the '
                'first matching file, skips the others, returns exactly its bytes and leaves the tape at the next '
@@ -31,6 +32,7 @@ ASSUMPTIONS = ['bit level abstracted: leader/sync/trailer delimit records, CAS b
 
 TOKENS = {0: 'D', 1: 'M', 0x20: 'P', 0xa0: 'P', 0x40: 'A', 0x80: 'B'}
 READ_TYPES = {'D': b'D', 'A': b'ABP', 'B': b'ABP', 'P': b'ABP', 'M': b'M'}
+MISSING_NAME = b'~nope~'
 VIDEO_SEG = 0xb800
 # text page 1 (not the visible page: console output never lands there)
 SAVE_OFFS = 4096
@@ -487,6 +489,42 @@ class Tape(object):
             self.problems.append(('content:%s' % typ, '%s: nothing read' % label))
         self.pos = target + 1
 
+    def failed_search(self, req, typ):
+        """A request nothing between the head and the end of the tape answers.  Statement: the files passed are
+        skipped, the search gives up (Device Timeout) and the tape can be searched again from its beginning."""
+        types = READ_TYPES[typ]
+        assert self.find_expected(req, types) is None
+        self.setname(req)
+        self.ops.append('or,%s,%s' % (hx(req), hx(types)))
+        stmt = {'D': b'OPEN N$ FOR INPUT AS 1', 'A': b'LOAD N$', 'B': b'LOAD N$', 'P': b'LOAD N$',
+                'M': b'BLOAD N$,%d' % LOAD_OFFS}[typ]
+        if typ == 'M':
+            self.ex(b'DEF SEG=&HB800')
+        out = self.ex(stmt)
+        msgs, err = parse_msgs(out)
+        word = 'or:' + ','.join(('F' if fnd else 'S') + hx(t) + '.%d' % ord(ty) for fnd, t, ty in msgs)
+        if err:
+            word += ',e%s' % err
+        self.outs.append(word)
+        exp_msgs = [(False, self.written[i]['trunk'], self.written[i]['type'])
+                    for i in range(self.pos, len(self.written))]
+        self.ctx.count('failed-search:%s' % ('passed-files' if exp_msgs else 'at-end'))
+        if msgs != exp_msgs or err != 24:
+            self.problems.append(('failed-search', 'search for %r (%s) from file %d: messages %r error %r, expected '
+                                  '%r and Device Timeout' % (req, typ, self.pos, msgs, err, exp_msgs)))
+        if not err:
+            self.ex(b'CLOSE')
+        # the tape is played from its beginning again
+        self.pos = 0
+
+    def read_behind(self, idx):
+        """ask for a file that lies behind the head: the search runs off the end (Device Timeout); asked again,
+        the file is found from the beginning of the tape"""
+        f = self.spec['files'][idx]
+        if self.find_expected(unhx(f['name']), READ_TYPES[f['type']]) is None:
+            self.failed_search(unhx(f['name']), f['type'])
+        self.read_file(idx)
+
     def read_data(self, f, expect):
         s = self.session
         data = b''
@@ -608,7 +646,12 @@ def run_tape(ctx, spec):
             t.outs.append('re')
             t.pos = 0
             for idx in plan:
-                if idx < 0:
+                if isinstance(idx, list):
+                    if idx[0] == 'miss':
+                        t.failed_search(MISSING_NAME, idx[1])
+                    else:
+                        t.read_behind(idx[1])
+                elif idx < 0:
                     t.read_file(-idx - 1, by_empty_name=True)
                 else:
                     t.read_file(idx)
@@ -619,7 +662,7 @@ def run_tape(ctx, spec):
             os.remove(t.path)
         except EnvironmentError:
             pass
-    return '11 ' + ';'.join(t.ops), ' '.join(t.outs), t.problems
+    return '111 ' + ';'.join(t.ops), ' '.join(t.outs), t.problems
 
 
 # --------------------------------------------------------------------------------------------------
@@ -661,6 +704,19 @@ def gen_spec(rng, fmt, lengths, types, nfiles=None):
         reads.append([n - 1])
     if rng.random() < 0.3:
         reads.append([-1])
+    # histories with failed searches: a name that is not on the tape, a file behind the head
+    if rng.random() < 0.6:
+        plan = [['miss', rng.choice('DDAM')]]
+        if rng.random() < 0.5:
+            plan.append(['miss', rng.choice('DBM')])
+        plan += sorted(rng.sample(range(n), rng.randint(1, n)))
+        if rng.random() < 0.5:
+            plan.append(['miss', files[-1]['type']])
+            plan.append(rng.randrange(n))
+        reads.append(plan)
+    if n >= 2 and rng.random() < 0.6:
+        j = rng.randint(1, n - 1)
+        reads.append([j, ['back', rng.randint(0, j)], ['back', 0]])
     return {'fmt': fmt, 'files': files, 'phases': phases, 'reads': reads}
 
 
@@ -673,7 +729,7 @@ def check_spec(ctx, spec, batch):
         return
     kinds = ''.join(f['type'] for f in spec['files'])
     ctx.case((spec['fmt'], kinds, tuple(f.get('length', -1) for f in spec['files']), len(spec['phases']),
-              tuple(map(tuple, spec['reads'])), tuple(f['name'] for f in spec['files'])))
+              repr(spec['reads']), tuple(f['name'] for f in spec['files'])))
     ctx.count('fmt:' + spec['fmt'])
     ctx.count('files:%d' % len(spec['files']))
     ctx.count('phases:%d' % len(spec['phases']))
@@ -769,7 +825,8 @@ def crafted(ctx):
             {'name': hx(b'LAST'), 'type': 'D', 'target': 254, 'pieces': [['raw', hx(b'z' * 254)]], 'read': 'input$',
              'chunk': 100},
         ]
-        check_spec(ctx, {'fmt': fmt, 'files': files, 'phases': [4], 'reads': [[1, 3], [3], [0, 1, 2, 3]]}, batch)
+        check_spec(ctx, {'fmt': fmt, 'files': files, 'phases': [4],
+                         'reads': [[1, 3], [3], [0, 1, 2, 3], [['miss', 'D'], 1, ['back', 0], ['miss', 'M'], 3]]}, batch)
     flush_batch(ctx, batch)
 
 
